@@ -326,11 +326,15 @@ def c11_specs():
                                        "init": init, "any": any_}
 
 
-def _obs(ctx):
+def _obs(ctx, requests=False):
+    """Per-simulator observation sequences: (time, inputs) of every step; with requests=True also the
+    attribute lists of every get_data request (a request for data is data-flow, too)."""
     seq = {}
     for e in ctx.trace:
         if e["k"] == "SB":
             seq.setdefault(e["s"], []).append([e["t"], e["inp"]])
+        elif requests and e["k"] == "DB":
+            seq.setdefault(e["s"], []).append(["get_data", e.get("req")])
     return seq
 
 
@@ -369,11 +373,15 @@ def _c11_row(spec):
     a = drive.execute(scn, beh(), behave.FifoPolicy(), hooks=attempt)
     same = True
     if res.get("out") == "ScenarioError":
-        # the same call with only the pairs that were NOT rejected must behave identically
+        # the same call with only the pairs that were NOT rejected must behave identically - inputs of every step AND
+        # the data requested from every simulator, with the cache on and off
         # (an error that names no pair - weak connection outside a group - rejects every pair of the call)
         keep = [i + 1 for i in range(len(spec["pairs"])) if (i + 1) not in res["named"]] if res["named"] else []
-        b = drive.execute(scn, beh(), behave.FifoPolicy(), hooks=lambda ctx: attempt(ctx, only=keep, res={}))
-        same = a.outcome["r"] == b.outcome["r"] and _obs(a) == _obs(b)
+        for cache in (True, False):
+            sc = dict(scn, cache=cache)
+            a2 = a if cache else drive.execute(sc, beh(), behave.FifoPolicy(), hooks=lambda ctx: attempt(ctx, res={}))
+            b = drive.execute(sc, beh(), behave.FifoPolicy(), hooks=lambda ctx: attempt(ctx, only=keep, res={}))
+            same = same and a2.outcome["r"] == b.outcome["r"] and _obs(a2, True) == _obs(b, True)
     row = dict(spec)
     row.update({"out": res.get("out", "other"), "named": res.get("named", []), "sameobs": same, "msg": res.get("msg", "")})
     return row
